@@ -86,8 +86,15 @@ def ref_called(cfg: tuple[int, bool, bool], kind: tuple[str, str, str]) -> bool:
     return ref_filter_matches(fi, dest)
 
 
-def run_case(cfgs: tuple[tuple[int, bool, bool], ...], stream: tuple[tuple[str, str, str], ...], unregister: int | None) -> list[tuple[str, str]]:
-    """One fresh XKNX; register the callbacks, feed the stream (then optionally unregister one and feed it again)."""
+MUTATE = "mutate-first"   # in place of an index to unregister: callback 0's lists are extended in place after registration
+
+
+def run_case(cfgs: tuple[tuple[int, bool, bool], ...], stream: tuple[tuple[str, str, str], ...], unregister: Any) -> list[tuple[str, str]]:
+    """One fresh XKNX; register the callbacks, feed the stream (then optionally unregister one and feed it again).
+
+    With unregister == MUTATE the returned handle of callback 0 gets 3/0/0 appended to its group_addresses and the pattern
+    'i-other' to its address_filters (the documented way to change a subscription, exercised by the repository's tests): it
+    then also sees those telegrams, and no other callback's subscription changes."""
     viols: list[tuple[str, str]] = []
     with CoreWorld(rate_limit=0) as w:
         xknx = w.xknx
@@ -120,6 +127,11 @@ def run_case(cfgs: tuple[tuple[int, bool, bool], ...], stream: tuple[tuple[str, 
                     match_for_outgoing=outgoing,
                 )
             )
+        mutated = unregister == MUTATE
+        if mutated:
+            unregister = None
+            handles[0].group_addresses.append(mk_dest("3/0/0"))
+            handles[0].address_filters.append(AddressFilter("i-other"))
         w.start()
         keep: list[Telegram] = []
         phases = [list(range(len(cfgs)))]
@@ -143,14 +155,14 @@ def run_case(cfgs: tuple[tuple[int, bool, bool], ...], stream: tuple[tuple[str, 
                 keep.append(t)
                 serial[id(t)] = n
                 for ci in active:
-                    if ref_called(cfgs[ci], kind):
+                    if ref_called(cfgs[ci], kind) or (mutated and ci == 0 and dest in ("3/0/0", "i-other") and (direction == "in" or cfgs[0][1])):
                         want.append((ci, n))
                 if dest == "1/1/1":
                     want_dev.append(n)
                 n += 1
                 xknx.telegrams.put_nowait(t)
         w.run(5.0)
-        ctxs = f"callbacks={[(FILTERS[f][0], 'outgoing' if o else 'incoming-only', 'raises' if r else 'ok') for f, o, r in cfgs]} stream={stream} unregister={unregister} log={log} dev={dev_log}"
+        ctxs = f"callbacks={[(FILTERS[f][0], 'outgoing' if o else 'incoming-only', 'raises' if r else 'ok') for f, o, r in cfgs]} stream={stream} unregister={MUTATE if mutated else unregister} log={log} dev={dev_log}"
         if xknx.telegrams._unfinished_tasks:  # noqa: SLF001
             viols.append(("stream-not-processed", ctxs))
         got = sorted(log)
@@ -209,6 +221,11 @@ def cases(thorough: bool, seed: int) -> list[tuple[Any, Any, Any]]:
     for cs in itertools.product(redc3, repeat=3):
         for s in [(k,) for k in red] + ([] if not thorough else list(itertools.product(red[:4], repeat=2))):
             out.append((cs, s, None))
+    # (f) a subscription extended in place on the returned handle: every ordered pair of filter shapes, the whole alphabet as stream
+    for f0 in range(len(FILTERS)):
+        for f1 in range(len(FILTERS)):
+            for o in (False, True):
+                out.append((((f0, o, False), (f1, o, False)), tuple(kinds), MUTATE))
     # (e) streams of 3 for single callbacks (thorough)
     if thorough:
         for c in cfgs:
@@ -245,7 +262,7 @@ def run(ctx: Ctx) -> None:
     ctx.rule = (
         f"real XKNX/TelegramQueue on the virtual loop, fresh per case: callback configurations = {len(FILTERS)} filter shapes (none, address lists incl. internal and duplicates, patterns incl. internal "
         f"globs, ranges and lists, both, empty list + pattern) x outgoing flag x raising = {len(cb_configs())}; telegram kinds = {len(telegram_kinds())} (8 destinations incl. unmatched and internal x in/out x write/read). (a) every single callback x ALL streams of <=2 telegrams; (b) ALL ordered pairs of callbacks x every telegram (thorough: x all pairs of 7 kinds); "
-        "(c) pairs with each one unregistered between two passes of the stream; (d) all triples over a reduced set; (e, thorough) streams of 3. Oracle: the invocation log equals the statement's "
+        "(c) pairs with each one unregistered between two passes of the stream; (d) all triples over a reduced set; (e, thorough) streams of 3; (f) all ordered pairs of filter shapes where the first callback's handle gets an address and a pattern appended in place after registration (only that callback's subscription changes). Oracle: the invocation log equals the statement's "
         "predicate (independent filter grammar) as a multiset - each matching (callback, telegram) exactly once, nothing else - and the device on 1/1/1 processes every telegram to it once, raising callbacks or not."
     )
     total = len(cases(ctx.thorough, ctx.seed))
